@@ -513,11 +513,154 @@ func c18exec(seq []tcall, impl c18impl, seqNo int, res *core.CaseResult, verbose
 	}
 }
 
+// c18directed: (a) handlers that make further calls on their own transaction: whatever order the results come in, there
+// is exactly one per call and every call's operation id appears exactly once; what the nested Set wrote is in the store.
+// (b) Commit with a context that is already cancelled: whatever Commit answers, the store is released (a fresh
+// transaction opens, also after an additional Abort) and holds what was set.
+func c18directed(impl c18impl, res *core.CaseResult) {
+	viol := func(what, got, want, detail string) {
+		res.Violate(fmt.Sprintf("C18|%s|%s|got=%s,want=%s", impl.name, what, got, want), detail+" on "+impl.name, map[string]any{"impl": impl.name, "part": "directed"})
+	}
+	fresh := func(open func(keyvalue.TransactionOptions) (keyvalue.Transaction, error), what string, keys ...string) []keyvalue.OpResult {
+		var out []keyvalue.OpResult
+		var ferr error
+		var p string
+		hung, confirmed := withWatchdog(func() {
+			p = core.Recover(func() {
+				t2, err := open(keyvalue.TransactionOptions{Mode: keyvalue.TransactionReadOnly})
+				if err != nil {
+					ferr = err
+					return
+				}
+				for _, k := range keys {
+					t2.Get(k)
+				}
+				out, ferr = t2.Commit(context.Background())
+			})
+		})
+		switch {
+		case hung && confirmed:
+			viol(what+"|store-usable", "hang", "usable", "a fresh transaction could not be opened afterwards: goroutine dump shows it parked on the store lock")
+			return nil
+		case hung:
+			res.Inconclusive = "fresh transaction did not return, no blocked-state witness"
+			return nil
+		case p != "" || ferr != nil || len(out) != len(keys):
+			viol(what+"|store-usable", "error", "usable", fmt.Sprintf("a fresh transaction failed afterwards: %v %s (%d results)", ferr, p, len(out)))
+			return nil
+		}
+		return out
+	}
+	// (a) nested calls
+	for variant := 0; variant < 3; variant++ {
+		_, open := impl.open()
+		txn, err := open(keyvalue.TransactionOptions{Mode: keyvalue.TransactionReadWrite})
+		if err != nil {
+			viol("nested|Transaction", "error", "ok", err.Error())
+			return
+		}
+		var ids []keyvalue.OpID
+		nest := keyvalue.OpHandlerFunc(func(t keyvalue.Transaction, r keyvalue.OpResult) error {
+			ids = append(ids, t.Get("x"))
+			ids = append(ids, t.Set("z", recordOf("nested"), blob.NewBytes([]byte("nested"))))
+			if variant == 2 {
+				ids = append(ids, t.GetHandler("z", keyvalue.OpHandlerFunc(func(t2 keyvalue.Transaction, _ keyvalue.OpResult) error {
+					ids = append(ids, t2.Get("z"))
+					return nil
+				})))
+			}
+			return nil
+		})
+		var results []keyvalue.OpResult
+		var cerr error
+		p := core.Recover(func() {
+			ids = append(ids, txn.Set("x", recordOf("outer"), blob.NewBytes([]byte("outer"))))
+			if variant == 1 {
+				ids = append(ids, txn.SetHandler("x", recordOf("outer2"), blob.NewBytes([]byte("outer2")), nest))
+			} else {
+				ids = append(ids, txn.GetHandler("x", nest))
+			}
+			ids = append(ids, txn.Get("z"))
+			results, cerr = txn.Commit(context.Background())
+		})
+		res.Count("nested_handler_programs", 1)
+		if p != "" {
+			viol("nested", "panic", "returns", "a handler that calls its own transaction panicked: "+p)
+			continue
+		}
+		if cerr != nil {
+			viol("nested|Commit", "error", "ok", "Commit failed: "+cerr.Error())
+			continue
+		}
+		seenCall := map[keyvalue.OpID]int{}
+		for _, id := range ids {
+			seenCall[id]++
+		}
+		if len(seenCall) != len(ids) {
+			viol("nested|opid", "duplicate", "unique", fmt.Sprintf("%d calls (some from inside a handler) were given the operation ids %v", len(ids), ids))
+			continue
+		}
+		if len(results) != len(ids) {
+			viol("nested|result-count", fmt.Sprint(len(results)), fmt.Sprint(len(ids)), fmt.Sprintf("Commit returned %d results for %d calls (ids %v)", len(results), len(ids), ids))
+			continue
+		}
+		seenRes := map[keyvalue.OpID]int{}
+		for _, r := range results {
+			seenRes[r.Op]++
+		}
+		for _, id := range ids {
+			if seenRes[id] != 1 {
+				viol("nested|result-opid", "missing-or-duplicate", "one-per-call", fmt.Sprintf("call ids %v, but the results carry %v", ids, seenRes))
+				break
+			}
+		}
+		if out := fresh(open, "nested", "z"); out != nil {
+			if v, err := recordValue(out[0].Record); out[0].Err != nil || err != nil || v != "nested" {
+				viol("nested|final-state", "other", "model", fmt.Sprintf("the Set made from inside a handler is not in the store: z = %q (%v %v)", v, out[0].Err, err))
+			}
+		}
+	}
+	// (b) Commit with a cancelled context, then (second variant) an Abort on top
+	for variant := 0; variant < 2; variant++ {
+		_, open := impl.open()
+		txn, err := open(keyvalue.TransactionOptions{Mode: keyvalue.TransactionReadWrite})
+		if err != nil {
+			viol("cancelled-commit|Transaction", "error", "ok", err.Error())
+			return
+		}
+		ctx, cancel := context.WithCancel(context.Background())
+		cancel()
+		var cerr error
+		p := core.Recover(func() {
+			txn.Set("x", recordOf("kept"), blob.NewBytes([]byte("kept")))
+			_, cerr = txn.Commit(ctx)
+			if variant == 1 {
+				_ = txn.Abort()
+			}
+		})
+		res.Count("cancelled_context_commits", 1)
+		if p != "" {
+			viol("cancelled-commit", "panic", "returns", "Commit with a cancelled context panicked: "+p)
+			continue
+		}
+		if out := fresh(open, "cancelled-commit", "x"); out != nil && cerr == nil {
+			if v, err := recordValue(out[0].Record); out[0].Err != nil || err != nil || v != "kept" {
+				viol("cancelled-commit|final-state", "other", "model", fmt.Sprintf("Commit reported success, but x = %q (%v %v)", v, out[0].Err, err))
+			}
+		}
+	}
+}
+
 func c18run(env *core.Env, idx int) core.CaseResult {
 	var res core.CaseResult
 	a, b, _ := c18layout(env)
 	if idx >= a+b {
 		return c18concurrent(env, idx-a-b)
+	}
+	if idx == 0 {
+		for _, impl := range c18impls() {
+			c18directed(impl, &res)
+		}
 	}
 	seqs := c18seqs(env, idx)
 	res.Evals = 2 * len(seqs)
@@ -561,10 +704,51 @@ func c18run(env *core.Env, idx int) core.CaseResult {
 // c18concurrent: 2..3 concurrent transactions on the real mem store; each writer sets a pair of keys to one
 // unique value inside one transaction, readers read both keys inside one transaction and must see equal values.
 // Some participants end their transaction by Abort or by an aborting handler followed by Commit.
+// busyFront is a TransactionStore that refuses a transaction while another one is open (a store that answers "busy"
+// instead of queueing); it is used through keyvalue.TransactionOrSerial, as the FS layer uses every store.
+type busyFront struct {
+	keyvalue.TransactionStore
+	mu sync.Mutex
+}
+
+var errBusy = errors.New("store busy: another transaction is open")
+
+func (b *busyFront) Transaction(o keyvalue.TransactionOptions) (keyvalue.Transaction, error) {
+	if !b.mu.TryLock() {
+		return nil, errBusy
+	}
+	t, err := b.TransactionStore.Transaction(o)
+	if err != nil {
+		b.mu.Unlock()
+		return nil, err
+	}
+	return &busyTxn{Transaction: t, front: b}, nil
+}
+
+type busyTxn struct {
+	keyvalue.Transaction
+	front *busyFront
+	once  sync.Once
+}
+
+func (t *busyTxn) Commit(ctx context.Context) ([]keyvalue.OpResult, error) {
+	rs, err := t.Transaction.Commit(ctx)
+	t.once.Do(t.front.mu.Unlock)
+	return rs, err
+}
+
 func c18concurrent(env *core.Env, n int) core.CaseResult {
 	var res core.CaseResult
 	r := rand.New(rand.NewSource(env.Seed*104729 + int64(n)))
-	store := mem.NewStoreVerif()
+	var store keyvalue.TransactionStore = mem.NewStoreVerif()
+	openTxn := store.Transaction
+	if n%3 == 2 {
+		front := &busyFront{TransactionStore: store}
+		openTxn = func(o keyvalue.TransactionOptions) (keyvalue.Transaction, error) {
+			return keyvalue.TransactionOrSerial(front, o)
+		}
+		res.Count("concurrent_groups_through_a_busy_front", 1)
+	}
 	workers := 2 + r.Intn(2)
 	rounds := 30 + r.Intn(40)
 	type plan struct {
@@ -605,9 +789,9 @@ func c18concurrent(env *core.Env, n int) core.CaseResult {
 						if plans[w].kind[i] == 0 {
 							mode = keyvalue.TransactionReadOnly // what the FS layer's own look-ups use
 						}
-						t, err := store.Transaction(keyvalue.TransactionOptions{Mode: mode})
+						t, err := openTxn(keyvalue.TransactionOptions{Mode: mode})
 						if err != nil {
-							continue
+							continue // (the busy front refused: nothing was read or written)
 						}
 						switch plans[w].kind[i] {
 						case 0, 1: // reader
@@ -650,6 +834,7 @@ func c18concurrent(env *core.Env, n int) core.CaseResult {
 						case 4: // plain Abort before anything was written
 							t.Get(ka)
 							_ = t.Abort()
+							_, _ = t.Commit(context.Background()) // (ends the transaction for the busy front as well)
 							mu.Lock()
 							aborts++
 							mu.Unlock()
